@@ -6,6 +6,7 @@ import BertE.Lemmas.CloseStep5
 import BertE.Lemmas.CloseValidate
 import BertE.Lemmas.CloseSync
 import BertE.Lemmas.CloseEval
+import BertE.Lemmas.Full2Inv
 /-
 C01 — forward-port inclusion of destination branches is an invariant.
 
@@ -481,5 +482,61 @@ example : InvQ exSys ∧ close_Antisym exSys.g ∧ CascadeSide exSys ∧ NoTies 
 example := C01_validate_complete exSys close_exSys_invQ (by decide) (by decide)
 example := C01_validate_complete_run true false exHistory close_exHistory_admV (by decide) (by decide)
 example := C01_evalQueues_eq_partial exSys close_exSys_invQ (close_mono_antisym close_exSys_mono) (by decide) (by decide)
+
+end BertE.C01
+
+
+/-! ### Work package Full2: antisymmetry of commit inclusion is part of the invariant
+
+`Full2.SysInv` = `Close.InvQ` + monotone commit numbering (`close_Mono`, preserved by `addCommit` and every merge of a
+job: `full2_step_mono`) + distinct keys of the remote ref map (`full2_step_keys`); every admissible event preserves it
+(`full2_step_sysInv`), the closed system `Full.step` preserves it with no admissibility hypothesis (`C01_full_step`).
+The hypothesis `ha` of `C01_evalQueues_eq_partial` is gone. -/
+namespace BertE.C01
+open BertE.Git BertE.Flow BertE.Select BertE.Close BertE.QV
+
+/-- **The ref-based queue evaluation is the bookkeeping-based one** (full statement of `C01_evalQueues_eq_partial`):
+    on a state satisfying the invariant whose cascade lets the queue evaluation reach `validate()` and without ties,
+    for a downward-closed selection that selects a queued pull request, `QV.evalQueues` (reads only refs, guarded by
+    `validate()`) and `Flow.planQueues` (reads the ghost bookkeeping) are the same plan. -/
+theorem C01_evalQueues_eq (s : Sys) (h : BertE.Full2.SysInv s) (hcs : CascadeSide s)
+    (hnt : NoTies s) (sel : List Nat) (hdc : DownClosed s sel)
+    (hne : (s.queue.filter fun e => sel.contains e.pr) ≠ []) :
+    ∃ loc loc', (QV.evalQueues s sel (close_wgone s sel)).ops = [.pushAll loc true] ∧
+      (planQueues s sel).ops = [.pushAll loc' true] ∧ (∀ x, loc.get x = loc'.get x) ∧
+      (QV.evalQueues s sel (close_wgone s sel)).g = (planQueues s sel).g ∧
+      (QV.evalQueues s sel (close_wgone s sel)).queue = (planQueues s sel).queue ∧
+      (QV.evalQueues s sel (close_wgone s sel)).outcome = (planQueues s sel).outcome :=
+  C01_evalQueues_eq_partial s h.invQ h.antisym hcs hnt sel hdc hne
+
+/-- the same for the selection COMPUTED from any build statuses, as observable effect at every crash point and for
+    every refused ref -/
+theorem C01_evalQueues_eq_computed (s : Sys) (h : BertE.Full2.SysInv s) (hcs : CascadeSide s)
+    (hnt : NoTies s) (b : Builds) (force : Bool)
+    (hne : (s.queue.filter fun e => (selectOf s b force).contains e.pr) ≠ []) (rej : Ref → Bool) (k : Nat) (x : Ref) :
+    (observable s (QV.evalQueues s (selectOf s b force) (close_wgone s (selectOf s b force))) rej k).get x =
+    (observable s (planQueues s (selectOf s b force)) rej k).get x :=
+  C01_evalQueues_eq_computed_partial s h.invQ h.antisym hcs hnt b force hne rej k x
+
+/-- ... along every admissible history of the repository model from the empty repository -/
+theorem C01_evalQueues_eq_run (useQueue skipQueue : Bool) (evs : List Event)
+    (hadm : BertE.Full2.AdmAllC ⟨Graph.empty, [], [], [], [], useQueue, skipQueue⟩ evs)
+    (hcs : CascadeSide (run ⟨Graph.empty, [], [], [], [], useQueue, skipQueue⟩ evs))
+    (hnt : NoTies (run ⟨Graph.empty, [], [], [], [], useQueue, skipQueue⟩ evs)) (sel : List Nat)
+    (hdc : DownClosed (run ⟨Graph.empty, [], [], [], [], useQueue, skipQueue⟩ evs) sel)
+    (hne : ((run ⟨Graph.empty, [], [], [], [], useQueue, skipQueue⟩ evs).queue.filter fun e => sel.contains e.pr) ≠ []) :
+    (QV.evalQueues (run ⟨Graph.empty, [], [], [], [], useQueue, skipQueue⟩ evs) sel
+        (close_wgone (run ⟨Graph.empty, [], [], [], [], useQueue, skipQueue⟩ evs) sel)).outcome =
+      (planQueues (run ⟨Graph.empty, [], [], [], [], useQueue, skipQueue⟩ evs) sel).outcome := by
+  obtain ⟨_, _, _, _, _, _, _, h⟩ := C01_evalQueues_eq _
+    (BertE.Full2.full2_run_sysInv evs (BertE.Full2.full2_sysInv_init useQueue skipQueue) hadm) hcs hnt sel hdc hne
+  exact h
+
+/-- Non-vacuity: `exSys` satisfies the whole invariant -/
+example := C01_evalQueues_eq exSys BertE.Full2.full2_exSys_sysInv (by decide) (by decide)
+example : BertE.Full2.SysInv exSys ∧ CascadeSide exSys ∧ NoTies exSys ∧
+    (exSys.queue.filter fun e => (selectOf exSys exBuilds false).contains e.pr) ≠ [] := by
+  refine ⟨BertE.Full2.full2_exSys_sysInv, by decide, by decide, ?_⟩
+  rw [exSys_select.1]; decide
 
 end BertE.C01
